@@ -104,6 +104,18 @@ def oracle(inp):
     if inp.get('kind') == 'history':
         import C02
         return C02.check_history(inp)           # a configuration used before, then edited / copied / re-ordered: framing follows the configuration as it is NOW
+    if inp.get('kind') == 'missing-cfg':
+        # the caller's configuration does not know an element the message flags (the packaged one does): no exact reading exists
+        from cardutil.iso8583 import loads, Iso8583DataError
+        import copy
+        raw = j2b(inp['raw']) if not isinstance(inp['raw'], bytes) else inp['raw']
+        cfg = copy.deepcopy(dict(R.packaged()))
+        cfg.pop(str(inp['bit']), None)
+        try:
+            got = loads(raw, iso_config=cfg)
+        except Iso8583DataError:
+            return None
+        return 'acceptance: message flagging DE%d accepted under a configuration that has no entry for it (decoded keys %s)' % (inp['bit'], sorted(got)[:6])
     if inp.get('kind') == 'rawhex':
         return check_hex(inp['raw'])
     if inp.get('kind') == 'raw':
@@ -154,6 +166,9 @@ def cases(tier, rng):
                 yield {'kind': 'rawhex', 'raw': b2j(bytes(d))}
         for bad in (b' ' + hx[4:35], hx[5:36] + b' ', b'0x' + hx[6:36], b'+' + hx[5:36], hx[4:20] + b'_' + hx[21:36], hx[4:6] + b'  ' + hx[8:36], hx[4:34] + b'\n\n'):
             yield {'kind': 'rawhex', 'raw': b2j(hx[:4] + bad + hx[36:])}
+    for bs, raw in bases[:10]:
+        yield {'kind': 'missing-cfg', 'raw': b2j(raw), 'bit': bs[0]}
+        yield {'kind': 'missing-cfg', 'raw': b2j(raw), 'bit': bs[-1]}
     for bs, raw in bases:
         yield {'kind': 'raw', 'raw': b2j(raw)}
         # the same message under the same configuration listed in another key order
